@@ -1,5 +1,6 @@
 import DarkluaModel.Shared.VisitorSound.HeapU.URefl
 import DarkluaModel.Shared.VisitorSound.Heap.HDrop
+import DarkluaModel.Shared.VisitorSound.HeapV.VDrop
 /-!
 # Stage 4: dropping / adding a `local` declaration whose values only ALLOCATE
 
@@ -126,26 +127,6 @@ theorem AllocPureEs.cons {e : Expr} {es : List Expr} (he : AllocPureE e) (hes : 
     exact ⟨first ws :: ws2, σ2, by simp only [evalEs, h1, Res.bind, h2], x1.trans x2⟩
 
 /-! ### a syntactic sufficient condition -/
-
-mutual
-  /-- literals, variables, parentheses, function expressions and table constructors without computed
-  keys whose values are of this form again -/
-  def _root_.DarkluaModel.Expr.allocPure : Expr → Bool
-    | .nil | .true | .false | .num _ | .str _ | .var _ | .vararg => true
-    | .paren e => e.allocPure
-    | .fn _ => true
-    | .table es => Entry.allocPureList es
-    | _ => false
-  def _root_.DarkluaModel.Entry.allocPureList : List Entry → Bool
-    | [] => true
-    | .pos v :: rest => v.allocPure && Entry.allocPureList rest
-    | .named _ v :: rest => v.allocPure && Entry.allocPureList rest
-    | .keyed _ _ :: _ => false
-end
-
-def _root_.DarkluaModel.Expr.allocPureAll : List Expr → Bool
-  | [] => true
-  | e :: es => e.allocPure && Expr.allocPureAll es
 
 mutual
   theorem allocPure_sound : ∀ (e : Expr), e.allocPure = true → AllocPureE e
